@@ -57,7 +57,7 @@ def showRes {β : Type} (sh : β → String) : Res β → String
   | .errIndex => "err:index"
   | .errValue => "err:value"
 
-def run {β : Type} [LT β] [DecidableLT β] (add : β → β → β) (big : β) (conv : β → β) (sh : β → String)
+def run {β : Type} [LT β] [DecidableLT β] [BEq β] (add : β → β → β) (big : β) (conv : β → β) (sh : β → String)
     (ns : List Nat) (pf qf : List β) : String :=
   match chunks ns pf, chunks (pairSizes ns) qf with
   | some P, some Q => showRes sh (decode (mkTables add big conv ns P Q) ns.length)
